@@ -16,6 +16,7 @@
    (KNOWN_FINDINGS: map-delta-with-tags-filter). *)
 From Coq Require Import List NArith Bool Arith.
 From Cfg Require Import Model.Delta Proofs.Delta Proofs.DeltaRefute Harness.C14 Proofs.DeltaOracle.
+From Cfg Require Model.MapSub Proofs.MapSubLib Proofs.MapSubInv Proofs.DeltaMapSub.
 Import ListNotations.
 
 Section Statements.
@@ -130,10 +131,11 @@ Proof.
 Qed.
 Print Assumptions C14_stream_unpositioned.
 
-(* MAP subscription WITHOUT tags filters, PARTIAL (state delivered as one
-   snapshot; pagination and the buffered window of the live transition are not
-   in this model): all schedules of publishes/removes on any keys (delivered or
-   lost), full subscribes, recovery joins and drops *)
+(* MAP subscription WITHOUT tags filters, snapshot model (state delivered as one
+   snapshot): all schedules of publishes/removes on any keys (delivered or
+   lost), full subscribes, recovery joins and drops.  Pagination and the
+   buffered window of the live transition are covered by
+   C14_map_live_delta_all_schedules below, over the protocol model of C22. *)
 Theorem C14_map_unfiltered_partial :
   forall bytes blen create apply esc unesc json, Contracts bytes create apply esc unesc ->
   forall sched,
@@ -144,6 +146,44 @@ Proof.
   apply (m_run_good _ _ _ _ _ _ _ A B). apply MInv_init.
 Qed.
 Print Assumptions C14_map_unfiltered_partial.
+
+(* MAP subscription, PAGINATED state + BUFFERED live transition (the protocol model of
+   C22, Model/MapSub.v): for ALL schedules of publishes, removes, stream expiry, clears, lost
+   PUB/SUB deliveries, client requests (state pages, stream pages, live transition / recovery join
+   with arbitrary writer operations inside the three windows of a request), position checks and
+   drops, all page sizes, stream sizes and transition limits: a live publication pushed to the
+   client finds the client holding exactly the broker's previous entry of that key (value level) *)
+Theorem C14_map_live_base_all_schedules :
+  forall K vis tlimit size limit evs w y' ds u,
+    (1 <= limit)%nat -> Forall (MapSubInv.evok K) evs -> MapSubInv.wok K w ->
+    let y := MapSub.run true K vis tlimit (MapSub.init size limit) evs in
+    MapSub.step_out true K vis tlimit y (MapSub.EvW w) = (y', MapSub.OPushes ds u) ->
+    forall p, In p ds ->
+      vis (MapSub.ck (snd p)) = true /\
+      MapSub.c_map (MapSub.y_c y) (MapSub.ck (snd p)) =
+      MapSubLib.vof (MapSub.state (MapSub.y_b y)) (MapSub.ck (snd p)).
+Proof. exact DeltaMapSub.live_push_base_run. Qed.
+Print Assumptions C14_map_live_base_all_schedules.
+
+(* ... hence (payload level, [pay v] = payload published with value v, [ud] = publisher asked for
+   a delta) the per-key delta or full payload of every such push is reconstructed by the client.
+   State pages carry full payloads (C14_full_when_no_base) and the catch-up of a transition is a
+   self-contained per-key chain (C14_recovered_map_chain). *)
+Theorem C14_map_live_delta_all_schedules :
+  forall bytes blen create apply esc unesc json, Contracts bytes create apply esc unesc ->
+  forall (pay : MapSub.val -> bytes) K vis tlimit size limit evs w y' ds u,
+    (1 <= limit)%nat -> Forall (MapSubInv.evok K) evs -> MapSubInv.wok K w ->
+    let y := MapSub.run true K vis tlimit (MapSub.init size limit) evs in
+    MapSub.step_out true K vis tlimit y (MapSub.EvW w) = (y', MapSub.OPushes ds u) ->
+    forall o k v (ud : bool), In (o, MapSub.mkC k (Some v)) ds ->
+      let prev := if ud then option_map pay (MapSubLib.vof (MapSub.state (MapSub.y_b y)) k) else None in
+      client_step bytes apply unesc json (option_map pay (MapSub.c_map (MapSub.y_c y) k))
+        (get_delta_pub bytes blen create esc json prev (pay v)) = Some (pay v).
+Proof.
+  intros ? ? ? ? ? ? ? [A B] pay.
+  exact (DeltaMapSub.live_delta_reconstructs _ _ _ _ _ _ _ A B pay).
+Qed.
+Print Assumptions C14_map_live_delta_all_schedules.
 
 (* with a tags filter the map statement is FALSE for the code as found *)
 Theorem C14_map_filtered_refuted :
